@@ -16,6 +16,9 @@ pub struct PErr(pub &'static str, pub String);
 thread_local! { pub static PERR_LOG: std::cell::RefCell<Vec<String>> = std::cell::RefCell::new(Vec::new()); }
 pub fn perr_a(s: &str) -> PErr { PERR_LOG.with(|l| l.borrow_mut().push(format!("perr_a:{}", hex(s.as_bytes())))); PErr("perr_a", s.to_string()) }
 pub mod perr { pub fn b(s: &str) -> super::PErr { super::PERR_LOG.with(|l| l.borrow_mut().push(format!("perr::b:{}", super::hex(s.as_bytes())))); super::PErr("perr::b", s.to_string()) } }
+// error functions whose NAMES are the ones a generated helper would plausibly use (an inner item of that name would capture the call)
+macro_rules! perr_named { ($($n:ident),*) => { $(pub fn $n(s: &str) -> PErr { PERR_LOG.with(|l| l.borrow_mut().push(format!("{}:{}", stringify!($n), hex(s.as_bytes())))); PErr(stringify!($n), s.to_string()) })* } }
+perr_named!(not_found, parse_error, from_str, try_from, err, error, default, variant_not_found, value, phf, fallback, parse, make_error);
 pub fn take_log() -> String { PERR_LOG.with(|l| { let v: Vec<String> = l.borrow_mut().drain(..).collect(); v.join(",") }) }
 pub trait ErrObs { fn eobs(&self) -> String; const TY: &'static str; }
 impl ErrObs for strum::ParseError { fn eobs(&self) -> String { match self { strum::ParseError::VariantNotFound => "err:notfound".to_string() } } const TY: &'static str = "strum"; }
